@@ -499,6 +499,15 @@ pub(crate) fn ps_or_hierarchical_net_identifier(
     s: Span,
 ) -> IResult<Span, PsOrHierarchicalNetIdentifier> {
     alt((
+        // an indexed component in front of a dot (g[0].w) can only be a hierarchical name: the
+        // package-scope form would match "g", and the select behind it cannot go on with ".w"
+        map(
+            preceded(
+                peek(tuple((identifier, many1(bracket(constant_expression)), symbol(".")))),
+                hierarchical_net_identifier,
+            ),
+            |x| PsOrHierarchicalNetIdentifier::HierarchicalNetIdentifier(Box::new(x)),
+        ),
         ps_or_hierarchical_net_identifier_package_scope,
         map(hierarchical_net_identifier, |x| {
             PsOrHierarchicalNetIdentifier::HierarchicalNetIdentifier(Box::new(x))
